@@ -84,7 +84,7 @@ def install_contract():
 def cases(ctx):
     rng = ctx.rng
     combos = [(f["id"], c) for f in REPLACE_FORMS for c in f["classes"]]
-    reps = ctx.pick(6, 150)
+    reps = ctx.pick(30, 400)
     i = 0
     for rep in range(reps):
         for fid, cls in combos:
@@ -119,7 +119,7 @@ def check_format(cls, orig, rep):
         return None if n == want else "md5-crypt salt length %d, original had %d" % (n, want)
     if cls == "sha512":
         return None if decoders.sha512crypt_shape(rep) else "not a sha512-crypt string"
-    if cls == "j9":
+    if cls in ("j9", "j9bad"):
         if not decoders.j9_wellformed(rep) or decoders.j9_decode(rep) is None:
             return "not a decryptable $9$ string"
         return None
